@@ -178,10 +178,19 @@ def check_compact(case):
     m = np.stack([np.sin(th) * np.cos(ph), np.sin(th) * np.sin(ph), np.cos(th)], axis=-1)
     cx, cy = case["cx"], case["cy"]
     p1 = [case["off"][0] * cx, case["off"][1] * cy]
-    f = df.Field(df.Mesh(p1=p1, p2=[p1[0] + n * cx, p1[1] + n * cy], n=(n, n)), nvdim=3, value=m)
+    store = [None, None, np.float32, np.int64, np.int32][(case["Q"] + int(case["R"] * 8) + n) % 5]
+    if store is not None and np.dtype(store).kind == "i":
+        # the same directions held as integer vectors (a spin direction given to three digits): the lattice charge is an
+        # integer whatever the storage type
+        m = np.round(m * 10000).astype(store)
+    elif store is not None:
+        m = m.astype(store)
+    f = df.Field(df.Mesh(p1=p1, p2=[p1[0] + n * cx, p1[1] + n * cy], n=(n, n)), nvdim=3, value=m, dtype=store)
     q = dft.topological_charge(f, method="berg-luescher")
     tag(f"Q={abs(case['Q'])}")
-    if not np.isfinite(q) or abs(q - round(q)) > 1e-9:
+    tag("storage=" + ("float64" if store is None else np.dtype(store).name))
+    tol_ = 1e-9 if store is None or np.dtype(store).kind == "i" else 1e-5
+    if not np.isfinite(q) or abs(q - round(q)) > tol_:
         raise Violation("berg-luescher-not-integer", f"compact winding {case['Q']} texture of radius {case['R']} cells, centre "
                                                      f"{case['centre']}: {q!r}")
     if round(q) != -case["Q"]:
